@@ -23,7 +23,7 @@ ANCHORS = ["decaylanguage.modeling.amplitudechain:AmplitudeChain.read_ampgen", "
            "decaylanguage.modeling.ampgentransform:AmpGenTransformer.constant", "decaylanguage.utils.particleutils:particle_from_string_name"]
 WORKERS = {"quick": 4, "thorough": 16}
 WATCHDOG = {"quick": 900, "thorough": 3300}
-REQUIRED = {"expansion>=2x2": 10, "nesting-depth-3": 20, "resonance-without-alternatives": 20, "resonance-with>=2-alternatives": 20, "resonance-with-3-alternatives": 5,
+REQUIRED = {"same-lines-read-again-under-the-other-cartesian-setting": 10, "expansion>=2x2": 10, "nesting-depth-3": 20, "resonance-without-alternatives": 20, "resonance-with>=2-alternatives": 20, "resonance-with-3-alternatives": 5,
             "tag:[S]": 10, "tag:[P]": 10, "tag:[D]": 10, "tag:[ls]": 10, "tag:[spin;ls]": 10, "cartesian:absent": 10, "cartesian:0": 10, "cartesian:1": 10,
             "parameter-rows": 20, "constant-rows": 20, "crlf": 5, "comments": 20, "eventtype-not-first": 5, "amplitudes>=8": 5, "unmemoised-read": 1, "flag-as-float-or-signed-literal": 10, "constant-name-repeated": 5, "ignored-line-kinds": 5,
             "shipped-model-or-test-text": 1, "read-after-a-failed-cartesian-read": 10, "conjugate-event-type": 20, "bare-use-in-another-spelling-of-the-particle": 5, "same-named-siblings-written-differently": 3, "same-complete-line-written-twice": 5, "coupling-very-small-or-phase-next-to-0-or-pi": 20, "free-flag-written-as-0.0-or-+0": 10}
@@ -242,7 +242,16 @@ def run(ctx):
         if i % 5 == 4:
             model = A.mirror_model(model)       # the conjugate process: Dbar0 -> K+ pi- ..., every name in its conjugate spelling
             ctx.hit("conjugate-event-type")
-        check(ctx, model, ctx.rng.randrange(10**9), memo=not (i == 3 and ctx.shard == 0))
+        style = ctx.rng.randrange(10**9)
+        check(ctx, model, style, memo=not (i == 3 and ctx.shard == 0))
+        if i % 3 == 1:
+            # the next text of the process: the same lines under the other setting of the cartesian option (numbers now mean real / imaginary, or the reverse)
+            import copy  # noqa: PLC0415
+
+            m2 = copy.deepcopy(model)
+            m2["cartesian"] = 1 if not model["cartesian"] else ctx.rng.choice([None, 0])
+            ctx.hit("same-lines-read-again-under-the-other-cartesian-setting")
+            check(ctx, m2, style, poison=False)
         if len(ctx.violations) >= ctx.max_violations:
             return
     if ctx.shard == ctx.nshards - 1:
